@@ -31,12 +31,26 @@ MANIFEST = dict(
          'C11_path_injective + C11_base_name_injective (distinct types never share a file when stropping is injective on the names '
          'involved); C11_path_inside_outdir, C11_ns_path_inside_outdir (all components below the output directory are safe names, '
          'lexical resolution only descends); C11_include_path_eq_output_path; C11_type_file_in_namespace_folder (the type file lies in '
-         'Namespace.output_folder of its namespace). Source tie: C11_tree_shape_pinned, C11_path_shape_pinned (normalised AST of '
+         'Namespace.output_folder of its namespace) and C11_type_file_folder_stropping_disabled (enable_stropping = false: iff stropping '
+         'leaves the namespace components alone, witness); C11_children_enumerated_in_name_order, '
+         'C11_children_order_independent_of_set_order. FILE SYSTEM: c11_targets = the output paths generate_all writes (derived from '
+         'get_all_types / get_all_datatypes; exported to C12): C11_written_paths_are_type_and_namespace_files, '
+         'C11_written_paths_inside_outdir (every written path = outdir ++ safe components), c11_targets_distinct[_types_only] '
+         '(pairwise distinct; type file never a namespace file) with c11_targets_distinct_refuted for a namespace-file stem equal to a '
+         'type file stem (known finding F-NS-STEM-COLLIDE, reproduced on nnvg). REAL STROPPERS (C09 StropInst, identifier type path, '
+         'all three languages, all DSDL names): C11_real_names_ident_like, C11_real_written_paths_inside_outdir (no stropping '
+         'hypothesis left), C11_real_paths_equal_iff_fold (injectivity modulo the folding relation, exactly), '
+         'C11_real_fold_is_equality_on_clean, C11_real_path_injective_on_clean, C11_real_fold_witness (ns.class.T / ns._class.T -> one '
+         'file: the documented stropping exception). Source tie: C11_tree_shape_pinned, C11_path_shape_pinned (normalised AST of '
          'build_namespace_tree, _NamespaceFactory, Namespace.__init__/__eq__/__hash__/_add_data_type/_add_nested_namespace/get_all_*/'
          '_recursive_*/find_output_path_for_type/_bfs_search_for_output_path, IncludeGenerator.make_path/_make_ns_list, '
          'Language.filter_short_reference_name, filter_type_to_include_path) and C11_path_sites_same_id_type (both path sites call '
-         'make_path once and strop nothing themselves; every stropping call of the path mechanism passes identifier type "path"). '
-         'C11_prefix_code_types_each_once_refuted documents the behaviour before fix f08a0a1 (F-NS-FOLD, fixed). Correspondence: the '
+         'make_path once and strop nothing themselves; every stropping call of the path mechanism passes identifier type "path"), C11_path_sites_same_extension_key_and_flags '
+         '(output chain, namespace file and include chains of lang/c, lang/cpp read the extension from the same configuration key and '
+         'forward it unchanged; no explicit stropping argument) on which C11_include_path_eq_output_path depends, '
+         'C11_generate_all_shape_pinned. '
+         'Theorems about code no longer in /repo are in coq/theories/History/C11_history.v. Correspondence (also with duck-typed type '
+         'sets pydsdl refuses: a type named like a sub-namespace): the '
          'extracted model and the real build_namespace_tree / DSDLCodeGenerator / nnvg run on the same random DSDL trees (c, cpp, py; '
          'names sampled from every reserved list and pattern of every identifier type of the language configuration; folded sibling '
          'namespaces; extension / stem / stropping overrides; five spellings of the output directory) and are compared on node set, '
@@ -182,7 +196,7 @@ def pool_names(lang: str, rng) -> typing.List[str]:
 
 
 # ---- case generation ----------------------------------------------------------------------------------------------
-def gen_types(rng, n_types: int, max_depth: int, lang: str = 'c') -> list:
+def gen_types(rng, n_types: int, max_depth: int, lang: str = 'c', mock: bool = False) -> list:
     extra = pool_names(lang, rng)
     comps = SAFE_COMPONENTS + extra * 2      # configuration-derived names are drawn about as often as the fixed ones
     shorts = SHORT_NAMES + extra
@@ -215,6 +229,19 @@ def gen_types(rng, n_types: int, max_depth: int, lang: str = 'c') -> list:
         if rng.random() < 0.3 and types:  # another version of an existing type
             ns, short = list(types[-1][0]), types[-1][1]
         types.append([list(ns), short, major, minor])
+    if mock:
+        # type sets pydsdl refuses but build_namespace_tree accepts: a type named like a sub-namespace of its namespace, and the
+        # reverse; only exact duplicates are removed
+        for ns in list(nss):
+            if len(ns) > 1 and rng.random() < 0.6:
+                types.append([list(ns[:-1]), ns[-1], 1, 0])
+        out, seen = [], set()
+        for t in types:
+            k = (tuple(t[0]), t[1], t[2], t[3])
+            if k not in seen and not any(x.lower() == y.lower() and x != y for x in t[0] for tt in out for y in tt[0]):
+                seen.add(k)
+                out.append(t)
+        return out
     return sanitize(types)
 
 
@@ -273,7 +300,8 @@ def gen_cases(rng, count: int, n_cli: int) -> list:
     while len(cases) < count:
         n += 1
         lang = rng.choice(LANGS)
-        types = gen_types(rng, rng.choice([1, 2, 3, 4, 6, 9, 14]), rng.choice([2, 3, 4, 6, 8]), lang)
+        mock = n % 6 == 0
+        types = gen_types(rng, rng.choice([1, 2, 3, 4, 6, 9, 14]), rng.choice([2, 3, 4, 6, 8]), lang, mock)
         if not types:
             continue
         gen = 'api'
@@ -283,6 +311,12 @@ def gen_cases(rng, count: int, n_cli: int) -> list:
         c = dict(id='r%d' % n, types=types, lang=lang, ext=rng.choice(EXTS), stem=rng.choice(STEMS),
                  es=(False if rng.random() < 0.08 else None), outdir=rng.choice(OUTDIRS), shuffle=rng.randrange(1000), generate=gen,
                  user=rng.choice(types) if rng.random() < 0.5 else None)
+        if rng.random() < 0.06:     # a namespace-file stem that is some type's Short_M_m (trigger of F-NS-STEM-COLLIDE)
+            t0 = rng.choice(types)
+            c['stem'] = '%s_%d_%d' % (t0[1], t0[2], t0[3])
+        if mock:     # duck-typed types straight into build_namespace_tree (no templates can be rendered for them)
+            c.update(mock=True, generate='no', user=None)
+            gen = 'no'
         if gen != 'api':
             c['es'] = None   # no command-line switch for it
         elif c['es'] is False:
@@ -421,6 +455,12 @@ def oracle_diff(r: dict, file_fold: bool) -> typing.List[str]:
             node = c['nodes'].get(t[0])
             if node is not None and tuple(r['outdir_parts']) + tuple(rel[:-1]) != tuple(node['path'][:-1]):
                 out.append('make_path(%r) = %r leaves the output folder %r of namespace %r' % (t, rel, node['path'][:-1], t[0]))
+    # a namespace file must not be a type file (both are written when namespace types are generated)
+    if r.get('generate_namespace_types'):
+        tfiles = {p: t for t, p in o['paths'].items()}
+        for k, v in o['nodes'].items():
+            if v['path'] in tfiles:
+                out.append(STEM_MSG + ' %r: namespace %r and type %r' % (v['path'], k, tfiles[v['path']]))
     if not file_fold and len(set(o['paths'].values())) != len(o['paths']):
         out.append('oracle: two types share a path without folding')  # cannot happen; guards the oracle itself
     if r.get('after_build_new_files'):
@@ -646,6 +686,17 @@ def run_impl(cases: typing.List[dict], workers: int = 0) -> typing.List[dict]:
     return out
 
 
+STEM_MSG = 'namespace file and type file are one path'
+STEM_ID = 'F-NS-STEM-COLLIDE'
+KF_STEM_LIVE = False     # set by main() after probing the witness
+
+
+def stem_trigger(r: dict) -> bool:
+    """trigger of F-NS-STEM-COLLIDE: the namespace-file stem equals the (stropped) file stem Short_M_m of some type"""
+    ps = (lambda x: r['strop'].get(x, x)) if r['es'] else (lambda x: x)
+    return any(ps('%s_%d_%d' % (t[1], t[2], t[3])) == r['stem'] for t in r['order'])
+
+
 def judge(case: dict, r: dict, kf_live: bool, models: typing.Optional[typing.List[dict]]) -> dict:
     """verdict for one case: {'oracle': [...], 'model': [...], 'kf': bool, 'ns_fold':, 'file_fold':}"""
     v = {'oracle': [], 'model': [], 'kf': False, 'ns_fold': False, 'file_fold': False}
@@ -670,6 +721,11 @@ def judge(case: dict, r: dict, kf_live: bool, models: typing.Optional[typing.Lis
             bad = [d for d in diffs if d]
             if bad:
                 v['model'] = bad[0]
+    if od and KF_STEM_LIVE and stem_trigger(r) and not v['model']:
+        # known finding F-NS-STEM-COLLIDE: only the collision itself is suppressed, and only when the trigger holds and the model
+        # (which has the behaviour: c11_targets_distinct_refuted) reproduces the implementation
+        v['kf_stem'] = any(m.startswith(STEM_MSG) for m in od)
+        od = [m for m in od if not m.startswith(STEM_MSG)]
     if od:
         if ns_fold and kf_live and models is not None and not v['model']:
             v['kf'] = True   # trigger satisfied and the quirk-faithful model reproduces the behaviour
@@ -730,7 +786,7 @@ def main(chk: core.Check, replay: typing.Optional[str] = None) -> int:
         cases = gen_cases(chk.rng, n_cases, n_cli)
 
     # 1. proof obligations
-    res = core.coq_check('C11', ['pin_c11tree', 'pin_c11path', 'c11_scan'])
+    res = core.coq_check('C11', ['uni', 'strop', 'pin_c11tree', 'pin_c11path', 'pin_c11gen', 'c11_scan'])
     chk.proof_coverage(res, [
         'hand model Gen/Namespace.v of build_namespace_tree, Namespace enumeration/lookup and make_path; valid for the pinned '
         'shape of the modelled functions (tools/translators/gen_c11.py: shape pins c11tree, c11path + AST scan c11_scan, '
@@ -761,6 +817,17 @@ def main(chk: core.Check, replay: typing.Optional[str] = None) -> int:
             kf_live = len(got) < len(w['types'])
         if kf_live:
             chk.report_known(WITNESS_ID)
+    global KF_STEM_LIVE
+    KF_STEM_LIVE = False
+    if chk.is_known(STEM_ID):
+        w = chk.known_entry(STEM_ID)['witness']
+        wc = dict(id='kfstem', types=w['types'], lang=w['lang'], outdir='rel', generate='api', shuffle=0, ext=None, stem=w['stem'], es=None, user=None)
+        r = run_impl([wc], workers=1)[0]
+        if 'err' not in r and r.get('generate_namespace_types'):
+            paths = [tuple(x[2]) for x in r['all']]
+            KF_STEM_LIVE = len(set(paths)) < len(paths) and len(r.get('new_files', [])) < len(paths)
+        if KF_STEM_LIVE:
+            chk.report_known(STEM_ID)
     models = run_model(exe, impl, prefix_quirk=kf_live) if ok_model else [None] * len(cases)
 
     stats = collections.Counter()
@@ -772,9 +839,11 @@ def main(chk: core.Check, replay: typing.Optional[str] = None) -> int:
         stats['lang_' + c['lang']] += 1
         stats['outdir_' + c['outdir']] += 1
         stats['generate_' + c['generate']] += 1
+        stats['mock_types_with_type_named_like_subnamespace'] += bool(c.get('mock')) and any(tuple(t[0]) + (t[1],) in {tuple(u[0][:j]) for u in c['types'] for j in range(1, len(u[0]) + 1)} for t in c['types'])
         stats['ns_fold_cases'] += v['ns_fold']
         stats['file_fold_cases'] += v['file_fold']
         stats['known_finding_instances'] += v['kf']
+        stats['stem_collision_instances'] += bool(v.get('kf_stem'))
         if 'err' not in r:
             nodes = {tuple(t[0][:j]) for t in r['order'] for j in range(1, len(t[0]) + 1)}
             empty = nodes - {tuple(t[0]) for t in r['order']}
